@@ -45,8 +45,33 @@ func c19Schema(kw string) map[string]any {
 		return map[string]any{"type": "string", "format": "date"}
 	case "type":
 		return map[string]any{"type": "integer"}
+	case "oneOf":
+		return map[string]any{"oneOf": []any{map[string]any{"type": "integer"}, map[string]any{"type": "string", "maxLength": 2}}}
+	case "anyOf":
+		return map[string]any{"anyOf": []any{map[string]any{"type": "boolean"}, map[string]any{"type": "string", "pattern": "^a"}}}
+	case "not":
+		return map[string]any{"not": map[string]any{"type": "string"}}
+	case "uniqueItems":
+		return map[string]any{"type": "array", "items": map[string]any{"type": "string"}, "uniqueItems": true}
+	case "maxItems":
+		return map[string]any{"type": "array", "items": map[string]any{"type": "string"}, "maxItems": 1}
+	case "required":
+		return map[string]any{"type": "object", "required": []any{"q"}}
+	case "additionalProperties":
+		return map[string]any{"type": "object", "properties": map[string]any{"q": map[string]any{"type": "string"}}, "additionalProperties": false}
 	}
 	panic("harness: c19 keyword " + kw)
+}
+
+// c19Value: the JSON text of the value that violates c19Schema(kw) and carries the marker.
+func c19Value(kw string) string {
+	switch kw {
+	case "uniqueItems", "maxItems":
+		return fmt.Sprintf(`[%q,%q]`, c19Marker, c19Marker)
+	case "required", "additionalProperties":
+		return fmt.Sprintf(`{"r":%q}`, c19Marker)
+	}
+	return fmt.Sprintf(`%q`, c19Marker)
 }
 
 func c19Run(c *Case) []any {
@@ -110,9 +135,9 @@ func c19Run(c *Case) []any {
 	case "path":
 		url = "/t/" + c19Marker
 	case "body":
-		body = strings.NewReader(fmt.Sprintf(`{"p":%q}`, c19Marker))
+		body = strings.NewReader(fmt.Sprintf(`{"p":%s}`, c19Value(tc.C.Kw)))
 	case "bodyitem":
-		body = strings.NewReader(fmt.Sprintf(`{"l":["a",%q]}`, c19Marker))
+		body = strings.NewReader(fmt.Sprintf(`{"l":["a",%s]}`, c19Value(tc.C.Kw)))
 	}
 	req := httptest.NewRequest(strings.ToUpper(method), url, body)
 	if body != nil {
@@ -149,7 +174,7 @@ func c19Run(c *Case) []any {
 			var rb []byte
 			if tc.C.Loc == "respbody" {
 				h.Set("Content-Type", "application/json")
-				rb = []byte(fmt.Sprintf(`{"p":%q}`, c19Marker))
+				rb = []byte(fmt.Sprintf(`{"p":%s}`, c19Value(tc.C.Kw)))
 			} else {
 				h.Set("X-P", c19Marker)
 			}
